@@ -23,6 +23,8 @@ def run(check, ctx):
     repo = ctx.repo
     fixed_width_rows(check, repo)
     roundtrip_rows(check, repo)
+    sec1_toy_rows(check, repo)
+    identifier_tables(check, repo)
     pem_padding_rows(check, repo)
     passphrase_encoding_siblings(check, repo)
     b64 = {"binascii.b2a_base64": lambda i, a, kw, st, node: b"<B64>\n"}
@@ -164,6 +166,155 @@ def fixed_width_rows(check, repo):
     check.ob("K", "K|ecc.fixed_width", not wrong, mod.path, fn.lineno,
              extracted="; ".join(wrong[:3]) if wrong else "%d rows: RFC 7748 u (32/56 bytes, little endian), RFC 8032 points (32/57 bytes with the sign bit), SEC 1 points (compressed and not) keep their full width when the top bytes of a coordinate are zero" % n,
              expected="fixed-width fields: the encoding of a key does not get shorter when a coordinate is small (a short encoding is rejected by every importer)")
+
+
+def sec1_toy_rows(check, repo):
+    """SEC 1 2.3.3 / 2.3.4 on a complete toy curve (y^2 = x^3 - 3x + b over F_23, prime order != p): for EVERY point
+    the uncompressed and the compressed encoding are decoded by the real _import_public_der (Integer arithmetic and
+    modular square root of the repository interpreted) and give back exactly that point - in particular the root with
+    the requested parity, y or p - y; x values without a point and wrong lengths or types are refused."""
+    from .point_compose import find_toy
+    from .int_table import Backend
+    from ..absval import AClass
+    from ..par import pmap
+    mod = repo.module(ECC)
+    fn = repo.func(mod, "_import_public_der")
+    T = find_toy(19)
+    size = (T.p.bit_length() + 7) // 8
+    be = Backend(repo, "native")
+
+    def run(enc):
+        it = be.interp()
+        st = State()
+        curve = it.new_obj(st, label="curve", attrs={"p": be.make(it, st, T.p), "b": be.make(it, st, T.b), "order": be.make(it, st, T.n),
+                                                     "oid": "1.3.9999", "name": "toy", "is_weierstrass": True})
+        it.inject.update({"Integer": AClass(be.mod, be.cls), "_curves.items()": [("toy", curve)]})
+
+        def m_construct(i, a, kw, st2, node):
+            x, y = kw.get("point_x"), kw.get("point_y")
+            return ("key", kw.get("curve"), be.value(st2, x) if be.is_own(x) else x, be.value(st2, y) if be.is_own(y) else y)
+        it.extra_models[ECC + ".construct"] = m_construct
+        it.unroll_limit = 400
+        res = it.run(mod, fn, {"ec_point": enc, "curve_oid": None, "curve_name": "toy"}, state=st)
+        rets = res.returns()
+        if res.raises() and not rets:
+            return ("raises",) + tuple(sorted(set(res.raise_classes())))
+        if len(rets) != 1 or res.raises():
+            return ("undecided", len(rets), tuple(res.raise_classes()))
+        return rets[0].value
+    rows = []
+    for (x, y) in T.points:
+        rows.append((b"\x04" + x.to_bytes(size, "big") + y.to_bytes(size, "big"), ("key", "toy", x, y)))
+        rows.append((bytes([2 + (y & 1)]) + x.to_bytes(size, "big"), ("key", "toy", x, y)))
+    xs = set(P[0] for P in T.points)
+    for x in range(T.p):
+        if x not in xs:
+            rows.append((b"\x02" + x.to_bytes(size, "big"), ("raises", "ValueError")))
+            rows.append((b"\x03" + x.to_bytes(size, "big"), ("raises", "ValueError")))
+    G = T.G
+    for enc in (b"\x05" + G[0].to_bytes(size, "big"), b"\x00", b"\x04" + G[0].to_bytes(size, "big"), b"\x02" + G[0].to_bytes(size + 1, "big"),
+                b"\x04" + G[0].to_bytes(size, "big") + G[1].to_bytes(size + 1, "big"), b"\x03"):
+        rows.append((enc, ("raises", "ValueError")))
+    got = pmap(lambda r: run(r[0]), rows)
+    wrong = []
+    for (enc, want), g in zip(rows, got):
+        if isinstance(g, list):
+            g = tuple(g)
+        if g != want:
+            wrong.append("%s on y^2=x^3-3x+%d mod %d (n=%d): %r, SEC 1 gives %r" % (enc.hex(), T.b, T.p, T.n, g, want))
+    check.ob("K-pw", "K-pw|sec1.toy", not wrong, mod.path, fn.lineno,
+             extracted=("%d of %d rows differ: " % (len(wrong), len(rows)) + "; ".join(wrong[:3])) if wrong else "%d encodings: every point of the curve in both forms decodes to itself; x without a point, wrong type bytes and lengths are refused" % len(rows),
+             expected="SEC 1 2.3.4: 04 || X || Y, or 02/03 || X with y the square root of x^3 - 3x + b of the given parity (the other root is p - y)")
+
+
+# Algorithm identifiers as the standards assign them (RFC 8017 A, RFC 8018 C, RFC 5480 / SEC 2, RFC 8410, RFC 3279, NIST CSOR).
+STD_CONSTANTS = {
+    "Crypto.PublicKey.RSA": {"oid": "1.2.840.113549.1.1.1"},
+    "Crypto.PublicKey.DSA": {"oid": "1.2.840.10040.4.1"},
+    "Crypto.IO._PBES": {
+        "_OID_PBE_WITH_MD5_AND_DES_CBC": "1.2.840.113549.1.5.3", "_OID_PBE_WITH_MD5_AND_RC2_CBC": "1.2.840.113549.1.5.6",
+        "_OID_PBE_WITH_SHA1_AND_DES_CBC": "1.2.840.113549.1.5.10", "_OID_PBE_WITH_SHA1_AND_RC2_CBC": "1.2.840.113549.1.5.11",
+        "_OID_PBES2": "1.2.840.113549.1.5.13", "_OID_PBKDF2": "1.2.840.113549.1.5.12", "_OID_SCRYPT": "1.3.6.1.4.1.11591.4.11",
+        "_OID_HMAC_SHA1": "1.2.840.113549.2.7", "_OID_DES_EDE3_CBC": "1.2.840.113549.3.7",
+        "_OID_AES128_CBC": "2.16.840.1.101.3.4.1.2", "_OID_AES192_CBC": "2.16.840.1.101.3.4.1.22", "_OID_AES256_CBC": "2.16.840.1.101.3.4.1.42",
+        "_OID_AES128_GCM": "2.16.840.1.101.3.4.1.6", "_OID_AES192_GCM": "2.16.840.1.101.3.4.1.26", "_OID_AES256_GCM": "2.16.840.1.101.3.4.1.46"},
+}
+STD_HMAC = {
+    "1.3.14.3.2.26": "1.2.840.113549.2.7", "2.16.840.1.101.3.4.2.4": "1.2.840.113549.2.8", "2.16.840.1.101.3.4.2.1": "1.2.840.113549.2.9",
+    "2.16.840.1.101.3.4.2.2": "1.2.840.113549.2.10", "2.16.840.1.101.3.4.2.3": "1.2.840.113549.2.11",
+    "2.16.840.1.101.3.4.2.5": "1.2.840.113549.2.12", "2.16.840.1.101.3.4.2.6": "1.2.840.113549.2.13",
+    "2.16.840.1.101.3.4.2.7": "2.16.840.1.101.3.4.2.13", "2.16.840.1.101.3.4.2.8": "2.16.840.1.101.3.4.2.14",
+    "2.16.840.1.101.3.4.2.9": "2.16.840.1.101.3.4.2.15", "2.16.840.1.101.3.4.2.10": "2.16.840.1.101.3.4.2.16"}
+STD_CURVES = {"NIST P-192": ("1.2.840.10045.3.1.1", "ecdsa-sha2-nistp192"), "NIST P-224": ("1.3.132.0.33", "ecdsa-sha2-nistp224"),
+              "NIST P-256": ("1.2.840.10045.3.1.7", "ecdsa-sha2-nistp256"), "NIST P-384": ("1.3.132.0.34", "ecdsa-sha2-nistp384"),
+              "NIST P-521": ("1.3.132.0.35", "ecdsa-sha2-nistp521"), "Ed25519": ("1.3.101.112", "ssh-ed25519"), "Ed448": ("1.3.101.113", None),
+              "Curve25519": ("1.3.101.110", None), "Curve448": ("1.3.101.111", None)}
+
+
+def identifier_tables(check, repo):
+    """The algorithm identifiers written into and looked up from encoded keys are the ones the standards assign: a
+    wrong entry still round-trips inside this library and fails (or, worse, selects another algorithm) everywhere else."""
+    def module_consts(mod):
+        out = {}
+        for n in mod.tree.body:
+            if isinstance(n, ast.Assign) and len(n.targets) == 1 and isinstance(n.targets[0], ast.Name):
+                out[n.targets[0].id] = n
+        return out
+    n = 0
+    for mname, table in sorted(STD_CONSTANTS.items()):
+        mod = repo.module(mname)
+        consts = module_consts(mod)
+        wrong = []
+        for name, want in sorted(table.items()):
+            a = consts.get(name)
+            got = a.value.value if a is not None and isinstance(a.value, ast.Constant) else None
+            n += 1
+            if a is None:
+                raise AnalysisError("%s.%s is no longer a module-level constant" % (mname, name))
+            if got != want:
+                wrong.append("%s = %r, assigned value %s" % (name, got, want))
+        check.ob("K", "K|oid.constants.%s" % mname.split(".")[-1], not wrong, mod.path, 1,
+                 extracted="; ".join(wrong[:3]) if wrong else "%d identifiers as assigned" % len(table),
+                 expected="RFC 8017 A.1 / RFC 3279 / RFC 8018 C / NIST CSOR object identifiers")
+    mod = repo.module("Crypto.Hash.HMAC")
+    a = module_consts(mod).get("_hash2hmac_oid")
+    if a is None or not isinstance(a.value, ast.Dict) or not all(isinstance(k, ast.Constant) and isinstance(v, ast.Constant) for k, v in zip(a.value.keys, a.value.values)):
+        raise AnalysisError("Crypto.Hash.HMAC._hash2hmac_oid is no longer a literal table")
+    got = dict((k.value, v.value) for k, v in zip(a.value.keys, a.value.values))
+    wrong = ["hash %s -> %s, assigned HMAC identifier %s" % (k, v, STD_HMAC[k]) for k, v in sorted(got.items()) if k in STD_HMAC and v != STD_HMAC[k]]
+    wrong += ["hash %s -> %s: no such assignment" % (k, v) for k, v in sorted(got.items()) if k not in STD_HMAC]
+    if len(set(got.values())) != len(got) or len(a.value.keys) != len(got):
+        wrong.append("two hashes share one HMAC identifier (the reverse table used by the PBES2 reader loses one)")
+    check.ob("K", "K|oid.hmac", not wrong, mod.path, a.lineno,
+             extracted="; ".join(wrong[:3]) if wrong else "%d hash -> HMAC identifiers as assigned, one-to-one" % len(got),
+             expected="RFC 8018 B.1.2 (hmacWithSHA1 .. hmacWithSHA512-256) and NIST CSOR (id-hmacWithSHA3-224 .. -512)")
+    # curve tables: canonical name -> (OID, OpenSSH name)
+    cmod = repo.module("Crypto.PublicKey._curve")
+    params = [x.arg for x in repo.func(cmod, "_Curve.__init__").args.args][1:]
+    io, ic, ih = params.index("oid"), params.index("canonical"), params.index("openssh")
+    seen = {}
+    for mname in ("Crypto.PublicKey._nist_ecc", "Crypto.PublicKey._edwards", "Crypto.PublicKey._montgomery"):
+        mod = repo.module(mname)
+        for c in ast.walk(mod.tree):
+            if isinstance(c, ast.Call) and isinstance(c.func, ast.Name) and c.func.id == "_Curve":
+                args = list(c.args) + [None] * len(params)
+                for k in c.keywords:
+                    if k.arg in params:
+                        args[params.index(k.arg)] = k.value
+                vals = [x.value if isinstance(x, ast.Constant) else None for x in (args[io], args[ic], args[ih])]
+                seen[vals[1]] = (vals[0], vals[2], mod.path, c.lineno)
+    wrong = []
+    for name, (oid, ssh) in sorted(STD_CURVES.items()):
+        g = seen.get(name)
+        if g is None:
+            raise AnalysisError("no _Curve(...) construction with canonical name %r" % name)
+        if g[0] != oid:
+            wrong.append("%s: OID %r, assigned %s" % (name, g[0], oid))
+        if ssh is not None and g[1] != ssh:
+            wrong.append("%s: OpenSSH name %r, RFC 5656 / RFC 8709 say %s" % (name, g[1], ssh))
+    check.ob("K", "K|oid.curves", not wrong, "lib/Crypto/PublicKey/_nist_ecc.py", 1,
+             extracted="; ".join(wrong[:3]) if wrong else "%d curves: OID and OpenSSH key type as assigned" % len(STD_CURVES),
+             expected="SEC 2 / RFC 5480 2.1.1.1 (NIST curves), RFC 8410 3 (Ed25519, Ed448, X25519, X448), RFC 5656 6.1, RFC 8709 4")
 
 
 def pem_padding_rows(check, repo):
